@@ -18,7 +18,7 @@ Definition nobs_eqb (a b : nobs) : bool :=
 Definition obs_eqb (a b : obs) : bool :=
   lN_eqb (ob_nodes a) (ob_nodes b)
   && list_eqb (pair_eqb N.eqb erec_eqb) (ob_edges a) (ob_edges b)
-  && list_eqb nobs_eqb (ob_per a) (ob_per b).
+  && list_eqb nobs_eqb (ob_per a) (ob_per b) && Bool.eqb (ob_ok a) (ob_ok b).
 Definition res_eqb (a b : res) : bool :=
   match a, b with
   | RId x, RId y => N.eqb x y
@@ -27,6 +27,7 @@ Definition res_eqb (a b : res) : bool :=
   | RNoEdge x, RNoEdge y => N.eqb x y
   | RErr, RErr => true
   | RIds x, RIds y => lN_eqb x y
+  | RRejected, RRejected => true
   | _, _ => false
   end.
 
@@ -68,7 +69,7 @@ Definition node_lists_ok (o : obs) (p : nobs) : bool :=
   && N.eqb (o_outdeg p) (N.of_nat (length (o_out p))) && N.eqb (o_indeg p) (N.of_nat (length (o_in p)))
   && lN_eqb (o_nout p) (nbr_def o n 0) && lN_eqb (o_nin p) (nbr_def o n 1) && lN_eqb (o_nboth p) (nbr_def o n 2).
 Definition consistent_obs (o : obs) : bool :=
-  lN_eqb (map o_id (ob_per o)) (ob_nodes o)
+  ob_ok o && lN_eqb (map o_id (ob_per o)) (ob_nodes o)
   && forallb (edge_listed_ok o) (ob_edges o)
   && forallb (node_lists_ok o) (ob_per o).
 
@@ -143,3 +144,39 @@ Definition check_mixed (c : mixed_case) : N :=
   let '(setup, threads, tail, os) := c in
   if negb (ids_unique (run empty setup) threads) then V_VIOLATION
   else seq_walk (run (run empty setup) (map fst (concat threads))) tail os.
+
+(* ---- traversal: after a sequence of operations, traverse(start, dir, max_depth) for many starts and
+   bounds.  Oracle (from the engine's OWN all_edges): exactly the existing nodes at distance
+   <= max_depth following edges in the requested direction (undirected edges either way). *)
+Definition ref_step (o : obs) (dir : N) (u : N) : list N :=
+  flat_map (fun er =>
+    let r := snd er in
+    (if N.eqb dir 0 || N.eqb dir 2 then
+       (if N.eqb (rfrom r) u then [rto r] else []) ++ (if negb (rdir r) && N.eqb (rto r) u then [rfrom r] else [])
+     else [])
+    ++
+    (if N.eqb dir 1 || N.eqb dir 2 then
+       (if N.eqb (rto r) u then [rfrom r] else []) ++ (if negb (rdir r) && N.eqb (rfrom r) u then [rto r] else [])
+     else [])) (ob_edges o).
+(* distance-indexed balls, computed without a visited set: ball (k+1) = ball k + successors of ball k *)
+Fixpoint ref_ball (o : obs) (dir : N) (k : nat) (start : N) : list N :=
+  match k with
+  | O => [start]
+  | S k' => let b := ref_ball o dir k' start in dedup (b ++ flat_map (ref_step o dir) b)
+  end.
+Definition trav_oracle (o : obs) (q : N * N * N * option (list N)) : bool :=
+  let '(start, dir, depth, r) := q in
+  match r with
+  | None => negb (mem start (ob_nodes o))
+  | Some ns => mem start (ob_nodes o)
+               && lN_eqb ns (sort_N (filter (fun v => mem v (ob_nodes o)) (ref_ball o dir (N.to_nat depth) start)))
+  end.
+Definition trav_case := (list op * obs * list (N * N * N * option (list N)))%type.
+Definition check_trav (c : trav_case) : N :=
+  let '(ops, ob, qs) := c in
+  if negb (consistent_obs ob && forallb (trav_oracle ob) qs) then V_VIOLATION
+  else let s := run empty ops in
+       if obs_eqb (observe s) ob
+          && forallb (fun q => let '(start, dir, depth, r) := q in
+                               option_eqb lN_eqb (traverse s start dir depth) r) qs
+       then V_OK else V_MISMATCH.
